@@ -76,11 +76,14 @@ Theorem C12_removed_unreferenced : forall W par kids lab ops o st' n,
 Proof. exact reachable_removed_unreferenced. Qed.
 Print Assumptions C12_removed_unreferenced.
 
-(* Beyond the statement: a failed copy_connections leaves no connection that did not exist
-   before (its undo may also drop older ones -- DESIGN S13, which is property C14's business). *)
-Theorem C12_failed_copy_adds_nothing : forall W par kids lab ops a o s' e,
-  let s := cn (exec W (init_state W par kids lab) ops) in
-  copy_conns W s a o = (s', Err e) -> forall c x, In x (conns s' c) -> In x (conns s c).
+(* Beyond the statement (the documented promise of the undo logs): a failed copy_connections,
+   copy_io or replace_child in a reachable state leaves no connection that did not exist before.
+   (The undo may also drop older connections -- DESIGN S13, which is property C14's business.) *)
+Theorem C12_failed_copy_adds_nothing : forall W par kids lab ops o st' e,
+  let st := exec W (init_state W par kids lab) ops in
+  match o with OCopyConns _ _ | OCopyIO _ _ _ _ _ | OReplace _ _ _ => True | _ => False end ->
+  step W st o = (st', Err e) ->
+  forall c x, In x (conns (cn st') c) -> In x (conns (cn st) c).
 Proof. exact reachable_failed_copy. Qed.
 Print Assumptions C12_failed_copy_adds_nothing.
 
